@@ -5,6 +5,7 @@ import SV.TxCache.EvictPost
 import SV.GenProofs.TxThresholds
 import SV.GenProofs.Config
 import SV.TxCache.ReachableSize
+import SV.TxCache.GoList
 namespace SV.Props.C06
 open SV SV.TxCache
 
@@ -85,5 +86,20 @@ theorem no_history_drops_pool_wide_when_disabled (cfg : Config) (ops : List Op) 
     (t : Tx) (s : Bytes) (hs : s ≠ t.sender) :
     alookup s (addTx Variant.current (run cfg ops) t).1.lists = alookup s (run cfg ops).lists :=
   reachable_no_pool_wide_drop_when_disabled cfg ops he t s hs
+
+/-! ### F3 as a theorem about the transcribed library and loop (SV/TxCache/GoList.lean): in `applySizeConstraints`
+    `element.Prev()` is evaluated AFTER `items.Remove(element)`, and `container/list` clears the removed element's links,
+    so the loop ends after one removal whatever the excess -/
+open GoList in
+theorem go_list_trim_is_trim1 (cfg : Config) {s : SenderList} (h : SWF s) :
+    SWF (s.applySizeConstraints cfg).1
+    ∧ (s.applySizeConstraints cfg).1.items.toList = (trim1 cfg s.items.toList).1
+    ∧ (s.applySizeConstraints cfg).2 = (trim1 cfg s.items.toList).2.map (·.hash) := applySizeConstraints_refines cfg h
+open GoList in
+theorem go_list_trim_removes_at_most_one_F3 (cfg : Config) {s : SenderList} (h : SWF s) :
+    (s.applySizeConstraints cfg).2.length ≤ 1
+    ∧ ((s.applySizeConstraints cfg).1.items.toList = s.items.toList ∧ (s.applySizeConstraints cfg).2 = []
+       ∨ ∃ x, s.items.toList = (s.applySizeConstraints cfg).1.items.toList ++ [x]
+             ∧ (s.applySizeConstraints cfg).2 = [x.hash]) := applySizeConstraints_removes_at_most_one cfg h
 
 end SV.Props.C06
